@@ -22,6 +22,7 @@ type Chunk struct {
 	Msg  int    `json:"msg"`
 	Part int    `json:"part"`
 	Kind string `json:"kind"`
+	Over bool   `json:"over,omitempty"`
 }
 
 type Step struct {
@@ -41,9 +42,10 @@ type Step struct {
 }
 
 type PlanMsg struct {
-	N   int  `json:"n"`
-	Ab  bool `json:"ab"`
-	Cut int  `json:"cut"`
+	N   int    `json:"n"`
+	Ab  bool   `json:"ab"`
+	Cut int    `json:"cut"`
+	Sz  string `json:"sz,omitempty"` // small | near | limit | over: body size relative to MaxMessageSize
 }
 
 type SeqParam struct {
@@ -64,6 +66,7 @@ type Beh struct {
 	Chunks    []Chunk   `json:"chunks"`
 	Steps     []Step    `json:"steps"`
 	MaxChunks uint32    `json:"maxchunks,omitempty"`
+	MaxMsg    uint32    `json:"maxmsg,omitempty"` // MaxMessageSize to negotiate (0: default)
 	Salt      int64     `json:"salt,omitempty"`
 	SweepRec  struct {
 		Kind string `json:"kind"`
@@ -177,7 +180,7 @@ func expected(b *Beh, bi *baseInfo, asis bool) (ws []want, term string, termStep
 			ws = append(ws, want{Ev: "ret", Err: "yes", step: i})
 		case "buffer":
 			ws = append(ws, acc)
-		case "toomany", "abort":
+		case "toomany", "abort", "toobig":
 			ws = append(ws, acc, want{Ev: "ret", Err: "yes", step: i})
 		case "deliver":
 			w := want{Ev: "ret", Req: bi.req[st.ID], step: i}
@@ -378,7 +381,7 @@ func traceOf(b *Beh, bi *baseInfo, evs []Ev) []any {
 			c = b.Chunks[st.ID-1]
 		}
 		tr = append(tr, map[string]any{"ev": "in", "via": st.In, "id": c.ID, "dmg": st.Dmg, "seq": c.Seq, "req": c.Req,
-			"kind": c.Kind, "msg": c.Msg, "part": c.Part})
+			"kind": c.Kind, "msg": c.Msg, "part": c.Part, "over": c.Over})
 	}
 	for _, e := range evs {
 		if e.Ev == "acc" {
